@@ -255,7 +255,7 @@ def check(ctx):
     if R is not None and poll is not None:
         ctx.touch(R)
         ctx.touch(poll)
-        runs = lib.call_blocks(R, lib.ends(A.TABLE["callback_run"]))
+        runs = lib.call_blocks(R, lib.ends(A.names(prog)["callback_run"]))
         polls = [b for b in lib.call_blocks(R, lambda n: n == poll.path) if any(R.dominates(r, b) for r in runs)]
         w = lib.path_to_return_avoiding(R, [lib.call_target(R, r) for r in runs], polls)
         ctx.check(bool(polls) and w is None, "C08.e", "runner:polls-after-every-run", R.loc(runs[0]) if runs else "",
@@ -263,7 +263,7 @@ def check(ctx):
                   lib.render_path(R, w) if w else None)
         # ... and after the finished system was put back (or dropped): reactions polled here may target that system, and
         # dropping its callback may release signals whose despawns must be seen in this tree
-        inserts = lib.call_blocks(R, lib.ends(A.TABLE["storage_insert"]))
+        inserts = lib.call_blocks(R, lib.ends(A.names(prog)["storage_insert"]))
         drops = [b for b, t, fr in R.iter_calls() if fr and lib.tail(mir.fn_name(fr), 2) == "mem::drop" and any(R.dominates(r, b) for r in runs)
                  and any("SystemCommandCallback" in a for a in fr.get("args", []))]
         starts = [lib.call_target(R, b) for b in inserts + drops]
